@@ -55,8 +55,14 @@ def _mask_inconclusive(ctx):
         return o
 
     def run_model(driver, lines, *a, **k):
-        mo = model0(driver, lines, *a, **k)
         io = stash.get(hash(tuple(lines)))
+        fed = lines
+        if io is not None and len(io) == len(lines):
+            # area `window`: several interleavings are allowed; the model is told which outcome the harness observed so
+            # that it can continue from that interleaving (it echoes the outcome iff it is one of the allowed ones,
+            # otherwise it prints the allowed set)
+            fed = [l + " => " + o if l.startswith("window ") else l for l, o in zip(lines, io)]
+        mo = model0(driver, fed, *a, **k)
         if mo is None or io is None or len(io) != len(mo):
             return mo
         inc = sum(1 for x in io if x == "inconclusive")
